@@ -52,6 +52,9 @@ func injectContextError(t *rapid.T, prog *mrogen.Program) string {
 		return c[rapid.IntRange(0, len(c)-1).Draw(t, "ctxErrPipe")]
 	}
 	firstOut := func(c *mrogen.Call) string {
+		if prog.Stage(c.Callee) == nil && prog.Pipeline(c.Callee) == nil {
+			return "o" // (a callee a previous injection made up)
+		}
 		_, outs, _ := prog.Callable(c.Callee)
 		if len(outs) == 0 {
 			return "o"
